@@ -237,7 +237,14 @@ impl<'a> LuaGen<'a> {
                     self.bump("elseif");
                     s.push_str(&format!("{i}elseif {} then\n{}", self.expr(2), self.block(depth - 1, ind + 1)));
                 }
-                if self.r.chance(1, 2) {
+                if self.r.chance(1, 8) {
+                    // an else block that consists of nothing but a `return` (the block's last statement is no `Stmt`), whose
+                    // values mention — and, inside a function literal, re-declare — names of the branches before it
+                    self.bump("else_only_return");
+                    let v = if self.r.chance(1, 2) { self.function_expr(depth.min(2)) } else { self.expr(2) };
+                    let i2 = Self::indent(ind + 1);
+                    s.push_str(&format!("{i}else\n{i2}return {}, {v}\n", self.name()));
+                } else if self.r.chance(1, 2) {
                     self.bump("else");
                     s.push_str(&format!("{i}else\n{}", self.block(depth - 1, ind + 1)));
                 }
